@@ -23,6 +23,7 @@ def jobs(tier):
         for ivl in ([None, '1/100', '19/100'] if q else [None, '1/100', '1/20', '1/10', '19/100']):
             J('h_orig_bam', L=L, interval=ivl)
     J('h_resp_cmdt', L=78, windows=1)
+    J('h_orig_bam', L=64, timer='2/5')
     # both intervals configured, each time the OTHER one is the shorter: every transfer kind is paced by its own setting
     J('h_orig_cmdt', L=29, interval='1/20', other_interval='1/100')
     J('h_orig_bam', L=22, interval='1/10', other_interval='1/100')
